@@ -146,16 +146,19 @@ def stream(draw, max_len=40):
     blob_sets = [i for i, it in enumerate(items) if it["spec"]["kind"] == "setBLOBVector" and any(c.get("text") for c in it["spec"]["children"])]
     for src, gap in draw(st.lists(st.tuples(st.integers(0, 1000), st.integers(0, 2)), max_size=2)) if blob_sets else []:
         i = blob_sets[src % len(blob_sets)]
+        if items[i]["spec"]["kind"] != "setBLOBVector":
+            continue
         twin = copy.deepcopy(items[i])
         for c in twin["spec"]["children"]:
-            if c.get("text"):
+            if c["kind"] == "oneBLOB" and c.get("text"):
                 try:
                     raw = base64.b64decode(c["text"], validate=True)
                 except Exception:  # noqa
                     continue
                 c["text"] = base64.b64encode(bytes(b ^ 0x5A for b in raw)).decode()
-        items.insert(min(len(items), i + 1 + gap), twin)
-        blob_sets = [k + 1 if k > i else k for k in blob_sets]
+        pos = min(len(items), i + 1 + gap)
+        items.insert(pos, twin)
+        blob_sets = [k + 1 if k >= pos else k for k in blob_sets]
     return items
 
 
